@@ -263,6 +263,17 @@ def check_C16(ctx):
                              "the interleaving of the handler's three goroutines is whatever the runtime picks; the oracle only contains outcomes that do not depend on it"])
 
 
+def check_C18(ctx):
+    g = ctx.bin(GRID)
+    jobs = []
+    for mode in ("zstd", "uncompressed"):
+        jobs.append(Job(g, "TestC18", name="C18:write/" + mode, timeout=1200, env={"VERIF_PARAM_MODE": mode, "GOMAXPROCS": "4"}))
+        jobs.append(Job(g, "TestC18Proxy", name="C18:proxy/" + mode, timeout=1200, env={"VERIF_PARAM_MODE": mode, "GOMAXPROCS": "4"}))
+    return dict(level="exploration", jobs=jobs,
+                rule="max_blob_size L in {1, 4 KiB, 1 MiB} x item size {L-1, L, L+1, 4L} x 13 write paths x {incompressible, highly compressible} content (so that the transport size differs from the logical size) x storage mode; max_proxy_blob_size P in {100, 4096} x backend object {P-1, P, P+1} x {Get size known/unknown, GetZstd, Contains known/unknown, FindMissingBlobs, AC dependency check}; GetCapabilities; non-trivial = distinct cells on both sides of each limit",
+                assumptions=["in-process servers; the disk cache and both front ends are configured with the same limit, as main() does"])
+
+
 def check_C17(ctx):
     th = ctx.thorough()
     jobs = e2lru_jobs(ctx, "C17", 6 if th else 4, 1500 if th else 100, hard_extras=(-1, 0, 1, 2))
@@ -326,7 +337,7 @@ def check_C13(ctx):
                              "a method unknown to the harness's read-only list is treated as mutating"])
 
 
-CHECKS = {"C01": check_C01, "C02": check_C02, "C08": check_C08, "C09": check_C09, "C06": check_C06, "C10": check_C10, "C12": check_C12, "C13": check_C13, "C16": check_C16, "C17": check_C17, "C03": check_C03, "C04": check_C04, "C05": check_C05, "C07": check_C07}
+CHECKS = {"C01": check_C01, "C02": check_C02, "C08": check_C08, "C09": check_C09, "C06": check_C06, "C10": check_C10, "C12": check_C12, "C13": check_C13, "C16": check_C16, "C17": check_C17, "C18": check_C18, "C03": check_C03, "C04": check_C04, "C05": check_C05, "C07": check_C07}
 
 # per-property manifest metadata
 META = {
@@ -360,6 +371,12 @@ META = {
         note="Channel/pipe interleavings inside the handler are not controlled (Go channel operations cannot be intercepted by import rewriting); inputs are enumerated exhaustively.",
         technique="exhaustive enumeration of bounded message sequences through the real stream handler against a protocol table",
         design_ref="DESIGN.md 3 (C16)"),
+    "C18": dict(
+        category="exploration", engine="E4 grid",
+        text="Exhaustive finite grid on both sides of each limit: every write path (13) x max_blob_size {1, 4 KiB, 1 MiB} x size {L-1, L, L+1, 4L} x compressible/incompressible content x storage mode: accept <=> logical size <= L, refusals are client errors and store nothing, GetCapabilities.max_cas_blob_size_bytes == L; every backend-read path x max_proxy_blob_size x object size {P-1, P, P+1}: oversize objects are never served, cached or reported present, and the backend is not asked when the requested size already exceeds the limit.",
+        note="Boundary-chosen sizes; limits are taken from the code's comparisons (<=) and the statement.",
+        technique="exhaustive enumeration of a finite limit x size x path grid through the real entry points",
+        design_ref="DESIGN.md 3 (C18)"),
     "C17": dict(
         category="model_checking", engine="E2 seqx + E1 vsched + E4 grid",
         text="Admission under max_size_hard_limit decided three ways: explicit-state BFS over reserve/add/get/remove/remover-step sequences on the real SizedLRU for limits {unset, max, max+1 block, max+2 blocks} with the exact iff-oracle and 'refused => nothing changed'; schedule exploration of concurrent uploads into a full cache with the background remover and its atomic backlog counter owned by the scheduler (all amounts of deletion lag), checking status codes, 'never refused when the option is unset', retry-after-drain and the accounting/directory invariants; and the HTTP 507 / gRPC RESOURCE_EXHAUSTED mapping plus 'reads keep working' on every write path at server level.",
